@@ -36,7 +36,7 @@ Ltac finish_step Hs :=
 
 Ltac unary Hs a i :=
   let Hi := fresh "Hi" in
-  cbv beta iota delta [step spec_step on_new on_alive ctor_from assign_from];
+  cbv beta iota delta [step spec_step on_new on_alive ctor_from assign_from deref_from];
   pose proof (Hs i) as Hi;
   destruct (a i) as [[[|] [?|]]|] eqn:Hai; cbn in Hi;
   rewrite ?Hi; finish_step Hs.
@@ -46,7 +46,7 @@ Ltac binary Hs a i j :=
   destruct (N.eqb_spec i j) as [Eij|Nij];
   [ subst j; unary Hs a i
   | pose proof Nij as Nij'; apply N.eqb_neq in Nij;
-    cbv beta iota delta [step spec_step on_new on_alive ctor_from assign_from];
+    cbv beta iota delta [step spec_step on_new on_alive ctor_from assign_from deref_from];
     pose proof (Hs i) as Hi; pose proof (Hs j) as Hj;
     destruct (a i) as [[[|] [?|]]|] eqn:Hai; destruct (a j) as [[[|] [?|]]|] eqn:Haj; cbn in Hi, Hj;
     rewrite ?Hi, ?Hj; finish_step Hs ].
@@ -62,6 +62,7 @@ Lemma step_refines z s a o :
 Proof.
   intro Hs.
   destruct o.
+  all: try destruct mv.
   all: try (unary Hs a i; fail).
   all: try (binary Hs a i j; fail).
 
@@ -77,16 +78,16 @@ Ltac spec_cases a :=
 Lemma spec_step_frame z a o x a' k :
   spec_step z a o = Some (x, a') -> ~ In k (writes o) -> a' k = a k.
 Proof.
-  intros H Hk. destruct o; cbn [spec_step writes In] in *; spec_cases a; inversion H; subst; clear H;
+  intros H Hk. destruct o; try destruct mv; cbn [spec_step writes In] in *; spec_cases a; inversion H; subst; clear H;
     cbv beta delta [aupd];
     repeat match goal with |- context [N.eqb k ?i] => destruct (N.eqb_spec k i); subst end;
-    try reflexivity; exfalso; apply Hk; auto.
+    try reflexivity; try (cbn; symmetry; eassumption); exfalso; apply Hk; auto.
 Qed.
 
 Lemma spec_step_alive z a o x a' k :
   spec_step z a o = Some (x, a') -> a' k <> None -> a k <> None \/ In k (ctor_index o).
 Proof.
-  intros H Hk. destruct o; cbn [spec_step ctor_index In] in *; spec_cases a; inversion H; subst; clear H;
+  intros H Hk. destruct o; try destruct mv; cbn [spec_step ctor_index In] in *; spec_cases a; inversion H; subst; clear H;
     revert Hk; cbv beta delta [aupd];
     repeat match goal with |- context [N.eqb k ?i] => destruct (N.eqb_spec k i); subst end;
     intro Hk; auto; try congruence; left; congruence.
@@ -95,7 +96,7 @@ Qed.
 Lemma spec_step_gives z a o x a' r g :
   spec_step z a o = Some (x, a') -> gives a o = Some (r, g) -> exists ty, a' r = Some (ty, g).
 Proof.
-  intros H Hg. destruct o; cbn [spec_step gives] in *; unfold src_state in *; spec_cases a; cbn in Hg;
+  intros H Hg. destruct o; try destruct mv; cbn [spec_step gives] in *; unfold src_state in *; spec_cases a; cbn in Hg;
     try discriminate; inversion H; subst; clear H; inversion Hg; subst; clear Hg;
     cbv beta delta [aupd]; rewrite ?N.eqb_refl; eauto.
 Qed.
